@@ -56,9 +56,13 @@ pub fn encode(src: &[u8], ctx: &Context, state_count: usize, dst: &mut Vec<u8>) 
         }
     }
 
-    for (state, chunk) in states.iter_mut().rev().zip(chunks.iter().rev()) {
-        for syms in chunk.windows(CONTEXT_SIZE).rev() {
-            let (i, j) = (usize::from(syms[0]), usize::from(syms[1]));
+    // The decoder advances all states in turn for each position, so the positions are the outer
+    // loop here, too (in reverse), to emit the renormalization data in the order it is read.
+    let chunk_size = src.len() / state_count;
+
+    for k in (1..chunk_size).rev() {
+        for (state, chunk) in states.iter_mut().rev().zip(chunks.iter().rev()) {
+            let (i, j) = (usize::from(chunk[k - 1]), usize::from(chunk[k]));
             let (f, g) = (frequencies[i][j], cumulative_frequencies[i][j]);
             *state = state_renormalize(*state, f, NORMALIZATION_BITS, &mut buf);
             *state = state_step(*state, f, g, NORMALIZATION_BITS);
